@@ -9,7 +9,7 @@ SPEC = {
                  'C15_same_account_refuted',
                  'C15_keys_consistent', 'C15_receipt_matches_state', 'C15_receipt_logs_after_partial',
                  'C15_receipt_logs_after_refuted', 'C15_coins_actions_conserve', 'C15_coins_state_from_receipts',
-                 'C15_ledger_keys_disjoint', 'C15_ledgers_independent'],
+                 'C15_ledger_keys_disjoint', 'C15_ledgers_independent', 'C15_flat_refines_ledger'],
     'allowed_axioms': [],
     'shard': 60,
     'check_preamble': 'Open Scope Z_scope.\n',
@@ -23,30 +23,64 @@ SPEC = {
             'the open findings; only the first divergence is classified), directed (witnesses of the 5 open findings '
             '+ one plain history). Per op the result class and the balances/frozen of all touched accounts are read '
             'back through LoadAccount/LoadExecAccount; at the end the whole KV is dumped. '
-            'non-trivial = at least 3 operations of the history succeeded; distinct = distinct Gallina case terms',
+            'back through LoadAccount/LoadExecAccount and the returned types.Receipt is decoded (Ty, every KV as storage key + '
+            'Account, every log as type + ExecAddr + Prev/Current Account); at the end the whole KV is dumped. '
+            'Coins stream: 1..43 transactions (Transfer / TransferToExec / Withdraw / Genesis, nil payload, unknown Ty, Ty with a '
+            'value of another kind) from 3 base58 and 2 eth-format senders (tx.From() of real secp256k1 public keys) to user '
+            'addresses in 3 letter-case spellings, driver addresses (coins from height 0, stub drivers from heights 5 and 15), '
+            'ExecAddress of 6 executor names and strangers, at non-decreasing heights from {0,1,4,5,9,10,14,15,19,20,21,30} with '
+            'ForkTransferExec=10, ForkWithdraw=20, 25% of the cases with the coins ExecType configured for a para chain '
+            '(receiver from the payload); run by the real coins driver (LoadDriver, CheckTx, Exec) on an overlay of a memory KV '
+            'that is committed on nil error and dropped otherwise; per tx: error class, decoded receipt, read-backs of sender, '
+            'receiver, sub-account; final dump; 2/3 of the cases inside ModelCoins.coins_guard (checked in Coq). '
+            'Multi stream: the coins account plus 1..3 NewAccountDB(execer, symbol) ledgers with near-colliding names '
+            '(token/ABC, token/AB, tokenA/BC, coinsbty/"", mavl/coins, ...) and 0..2 rejected names containing "-" on ONE memory '
+            'KV; 2..34 guarded operations through random ledgers on shared accounts; after every operation the touched '
+            'accounts are read back through EVERY ledger; raw dump of the shared store (byte keys). '
+            'non-trivial = at least 3 operations / transactions of the case succeeded; distinct = distinct Gallina case terms',
     'trusted_base': [
         'memory KV (common/db GoMemDB) as the state store; protobuf encode/decode of types.Account',
-        'address strings contain no ":" and do not start with "exec-" (true of base58 and hex addresses), so the '
-        'storage keys are modelled as structured keys (main: normalised address; sub: raw exec spelling, normalised holder)',
+        'Hist/Coins cases: storage keys are compared as structured keys (main: normalised address; sub: raw exec spelling, '
+        'normalised holder) parsed by the harness from the byte key; C15_flat_refines_ledger proves that the byte-keyed ledger '
+        'equals the structured one for addresses without ":" in the executor position and without a leading "exec-" '
+        '(boolean guard op_keys_ok, evaluated on every Multi case), and the Multi cases compare raw byte keys',
+        'coins cases: the executor framework around a driver is reduced to "CheckTx, Exec, keep the writes iff the error is '
+        'nil" (harness overlay KV instead of executor.StateDB Begin/Rollback; fee, signature, expiry and nonce checks of '
+        'execTx are not part of the case); execDrivers table, ExecAddress(name) graph, fork heights and the para flag are '
+        'inputs of the case (hash and configuration are not modelled); subCfg.DisableCheckTxAmount = false',
+        'receipt logs are decoded by log type with the protobuf messages of types/account.proto (harness side)',
         'FormatAddrKey lower-cases eth-style addresses: crypto context API == nil or fork ForkFormatAddressKey active '
         '(the harness runs with API == nil); before that fork no spelling is normalised',
         'default config: coin precision 1e8 (CheckAmount limit 1e17), MaxTokenBalance 9e18, minerExecs from the default config',
     ],
     'assumptions': [
+        'C15_coins_actions_conserve is stated under ModelCoins.coins_guard (int64 amounts; supply + genesis grants <= '
+        'MaxTokenBalance; sub-ledger total + amounts of deposit-type transactions < 2^63): without it the model allows a sender '
+        'that is itself an executor address to pump one sub-account past 2^63 (needs a key for a hash-derived address)',
+        'a receipt-less empty record left by a panicking account.DB call (GenesisInitExec with amount 0 saves the unchanged '
+        'executor account first) is tolerated by the receipts-equal-store oracle; every other difference is a violation',
         'panics are observed through recover() at the account.DB call; the executor framework recovery/rollback is not part of this property',
         'the head-room guard of the partial theorems (sum of mint-type amounts + supply <= MaxTokenBalance, sum of '
         'deposit-type amounts + sub-ledger total < 2^63) makes safeAdd failures and int64 wrap impossible; the unrestricted '
         'stream still exercises safeAdd limits against the model',
     ],
     'manifest': {
-        'level_text': 'partial: conservation, non-negativity/no-overflow, failure atomicity, executor consistency and '
+        'level_text': 'extensions proved without guards: every successful operation returns a receipt whose KV list applied '
+                      'in order IS the new ledger, whose logs are aligned with the KVs, carry Prev = account before and (when no '
+                      'key is written twice) Current = account after (C15_receipt_matches_state; the twice-written case is '
+                      'finding 1 and refuted); the coins driver state is the fold of its receipts; ledgers of different '
+                      '(execer, symbol) without "-" have disjoint byte keys and never change each other, for all histories '
+                      '(C15_ledgers_independent); coins transactions conserve supply except Genesis at height 0, fail atomically '
+                      '(panic paths included) and keep all invariants under the head-room guard (C15_coins_actions_conserve). '
+                      'Base ledger: partial: conservation, non-negativity/no-overflow, failure atomicity, executor consistency and '
                       'same-account reads are proved for all histories that satisfy boolean guards (no two spellings of one '
                       'account in one ExecTransfer/ExecTransferFrozen/TransferWithdraw, genesis amounts valid, head-room); '
                       'the unguarded statements are refuted (5 open findings reproduced on the Go code)',
-        'level_note': 'Hand-written Gallina model of account.DB (15 operations, int64 wrap explicit) tied to /repo by '
+        'level_note': 'Hand-written Gallina model of account.DB (15 operations + receipts, int64 wrap explicit), of the coins '
+                      'executor (4 actions, fork / driver-address / para routing) and of several ledgers on one byte-keyed store, tied to /repo by '
                       'differential histories evaluated in the Coq kernel; memory KV, protobuf codec and the address-key '
                       'normaliser environment (API nil / fork active) are trusted.',
-        'technique': 'Coq proof (invariant by induction over op histories, generic linear weighted sums) + in-kernel correspondence check',
+        'technique': 'Coq proof (invariant by induction over op histories, generic linear weighted sums, store-generic operations with a frame and a simulation argument) + in-kernel correspondence check',
     },
     'harness_timeout': {'quick': 300, 'thorough': 3000},
 }
